@@ -568,7 +568,7 @@ func drawLU(t *rapid.T) luCase {
 }
 
 func TestLU(t *testing.T) {
-	vk.Run(t, "lu", vk.Opts{Quick: 700, Thorough: 30000}, drawLU, finish(checkLU))
+	vk.Run(t, "lu", vk.Opts{Quick: 700, Thorough: 16000}, drawLU, finish(checkLU))
 }
 
 var _ = blas.NoTrans
